@@ -9,6 +9,7 @@ import Bardolph.Props.C02Climb
 import Bardolph.Props.C03
 import Bardolph.Props.C04
 import Bardolph.Props.C05
+import Bardolph.Props.C06
 import Bardolph.Props.C07
 import Bardolph.Props.C11
 import Bardolph.Props.C14
